@@ -30,9 +30,9 @@ impl<'a> TryFrom<&'a [u8]> for SnmpV1Message<'a> {
         }
         // Version
         let (tail, v_code) = SnmpInt::from_ber(envelope.0)?;
-        let vc = v_code.into();
-        if vc != SNMP_V1 {
-            return Err(SnmpError::InvalidVersion(vc));
+        let vc: i64 = v_code.into();
+        if vc != SNMP_V1 as i64 {
+            return Err(SnmpError::InvalidVersion(vc as u8));
         }
         // Parse community
         let (tail, community) = SnmpOctetString::from_ber(tail)?;
